@@ -1,19 +1,849 @@
-//! Seeded generator of Ink programs (placeholder; filled in below).
+//! Seeded generator of Ink programs the repository's compiler accepts.
+//!
+//! Every text line, choice, tag and gather carries a unique marker
+//! (`K2L7`), so every observation is attributable to one program site.
+//! Control flow is forward-only between knots (plus counter-guarded loops), so
+//! programs terminate; fuel bounds whatever does not.
+use crate::corpus::compile_source;
 use crate::model::Program;
 use crate::rng::Rng;
 
-#[derive(Clone, Default)]
+#[derive(Clone, Debug)]
 pub struct GenCfg {
     pub knots: usize,
+    pub stmts: usize,
+    pub globals: bool,
+    pub strings: bool,
+    pub lists: bool,
+    pub consts: bool,
+    pub functions: bool,
+    pub tunnels: bool,
+    pub threads: bool,
+    pub choices: bool,
+    pub conditionals: bool,
+    pub sequences: bool,
+    pub shuffles: bool,
+    pub glue: bool,
+    pub tags: bool,
+    pub temps: bool,
+    pub externals: bool,
+    pub random: bool,
+    pub read_counts: bool,
+    pub stitches: bool,
+    pub loops: bool,
+    /// zero divisors in variables, i32 extremes, void operands, bad divert variables ...
+    pub fault_prone: bool,
+    /// warning / error sites with unique identifiers (C13)
+    pub message_sites: bool,
+    /// assignments placed around line ends (C11)
+    pub assign_heavy: bool,
+    /// external calls in every position (C12)
+    pub external_heavy: bool,
+    /// hostile characters in text (C20)
+    pub hostile_text: bool,
+    /// equal item values inside one list and across lists (hash-order sensitive: C03 only)
+    pub list_ties: bool,
+    /// keep swarm() from toggling
+    pub fixed: bool,
 }
 
 impl GenCfg {
     pub fn general() -> GenCfg {
-        GenCfg { knots: 3 }
+        GenCfg {
+            knots: 3,
+            stmts: 5,
+            globals: true,
+            strings: true,
+            lists: true,
+            consts: true,
+            functions: true,
+            tunnels: true,
+            threads: true,
+            choices: true,
+            conditionals: true,
+            sequences: true,
+            shuffles: false,
+            glue: true,
+            tags: true,
+            temps: true,
+            externals: false,
+            random: false,
+            read_counts: true,
+            stitches: true,
+            loops: true,
+            fault_prone: false,
+            message_sites: false,
+            assign_heavy: false,
+            external_heavy: false,
+            hostile_text: false,
+            list_ties: false,
+            fixed: false,
+        }
     }
-    pub fn swarm(&mut self, _rng: &mut Rng) {}
+
+    /// Swarm configuration: each run enables a random subset of features.
+    pub fn swarm(&mut self, rng: &mut Rng) {
+        if self.fixed {
+            return;
+        }
+        self.knots = 1 + rng.below(4);
+        self.stmts = 2 + rng.below(6);
+        let mut t = |on: &mut bool, num: usize, den: usize| {
+            if *on {
+                *on = rng.chance(num, den);
+            }
+        };
+        t(&mut self.strings, 2, 3);
+        t(&mut self.lists, 1, 2);
+        t(&mut self.consts, 1, 3);
+        t(&mut self.functions, 2, 3);
+        t(&mut self.tunnels, 1, 2);
+        t(&mut self.threads, 1, 3);
+        t(&mut self.choices, 4, 5);
+        t(&mut self.conditionals, 2, 3);
+        t(&mut self.sequences, 1, 2);
+        t(&mut self.shuffles, 1, 2);
+        t(&mut self.glue, 1, 2);
+        t(&mut self.tags, 1, 2);
+        t(&mut self.temps, 1, 2);
+        t(&mut self.externals, 1, 2);
+        t(&mut self.random, 1, 2);
+        t(&mut self.read_counts, 1, 2);
+        t(&mut self.stitches, 1, 2);
+        t(&mut self.loops, 1, 2);
+    }
 }
 
-pub fn generate(_rng: &mut Rng, _cfg: &GenCfg) -> Option<Program> {
-    None
+struct G<'a> {
+    rng: &'a mut Rng,
+    cfg: GenCfg,
+    out: String,
+    marker: usize,
+    knot: usize,
+    ints: Vec<String>,
+    bools: Vec<String>,
+    strs: Vec<String>,
+    list_vars: Vec<String>,
+    /// (list name, items)
+    lists: Vec<(String, Vec<String>)>,
+    consts: Vec<String>,
+    funcs: Vec<(String, usize, bool)>, // name, argc, prints text
+    tunnels: Vec<String>,
+    threads: Vec<String>,
+    externals: Vec<(String, usize)>,
+    knots: Vec<String>,
+    temps: Vec<String>,
+    msg_id: usize,
+    divert_vars: Vec<String>,
+}
+
+const HOSTILE: &[&str] = &["\"quoted\"", "back\\\\slash", "tab\there", "caf\u{e9} \u{4f60}\u{597d}", "emoji \u{1F600}", "brace\\{x\\}", "a \\| b", "ctl\u{1}x", "nul-ish \u{7f}"];
+
+impl<'a> G<'a> {
+    fn m(&mut self) -> String {
+        self.marker += 1;
+        format!("K{}L{}", self.knot, self.marker)
+    }
+
+    fn line(&mut self, indent: usize, s: &str) {
+        for _ in 0..indent {
+            self.out.push_str("  ");
+        }
+        self.out.push_str(s);
+        self.out.push('\n');
+    }
+
+    fn int_atom(&mut self) -> String {
+        let mut pool: Vec<String> = self.ints.clone();
+        pool.extend(self.temps.iter().cloned());
+        if self.cfg.consts {
+            pool.extend(self.consts.iter().cloned());
+        }
+        if !pool.is_empty() && self.rng.chance(3, 5) {
+            return self.rng.pick(&pool).clone();
+        }
+        if self.cfg.fault_prone && self.rng.chance(1, 6) {
+            return self.rng.pick(&["2147483647", "-2147483647", "0", "65536", "46341"]).to_string();
+        }
+        format!("{}", self.rng.range(0, 9))
+    }
+
+    fn int_expr(&mut self, depth: usize) -> String {
+        if depth == 0 || self.rng.chance(2, 5) {
+            if self.cfg.read_counts && !self.knots.is_empty() && self.rng.chance(1, 8) {
+                return self.rng.pick(&self.knots).clone();
+            }
+            if self.cfg.random && self.rng.chance(1, 8) {
+                return format!("RANDOM(1, {})", self.rng.range(1, 6));
+            }
+            if self.cfg.functions && self.rng.chance(1, 8) {
+                let fs: Vec<(String, usize, bool)> = self.funcs.iter().filter(|f| !f.2).cloned().collect();
+                if !fs.is_empty() {
+                    let f = self.rng.pick(&fs).clone();
+                    let args: Vec<String> = (0..f.1).map(|_| self.int_atom()).collect();
+                    return format!("{}({})", f.0, args.join(", "));
+                }
+            }
+            if self.cfg.lists && !self.list_vars.is_empty() && self.rng.chance(1, 10) {
+                let lv = self.rng.pick(&self.list_vars).clone();
+                return format!("LIST_COUNT({lv})");
+            }
+            return self.int_atom();
+        }
+        let a = self.int_expr(depth - 1);
+        let b = self.int_expr(depth - 1);
+        let ops: &[&str] = if self.cfg.fault_prone { &["+", "-", "*", "/", "%", "*", "+"] } else { &["+", "-", "*", "+"] };
+        let op = *self.rng.pick(ops);
+        if !self.cfg.fault_prone && self.rng.chance(1, 6) {
+            // safe division by a non-zero literal
+            let d = self.rng.range(1, 5);
+            let o = self.rng.pick(&["/", "%"]);
+            return format!("({a} {o} {d})");
+        }
+        format!("({a} {op} {b})")
+    }
+
+    fn cond(&mut self) -> String {
+        match self.rng.below(8) {
+            0 if !self.bools.is_empty() => self.rng.pick(&self.bools).clone(),
+            1 if !self.bools.is_empty() => format!("not {}", self.rng.pick(&self.bools)),
+            2 if self.cfg.read_counts && !self.knots.is_empty() => {
+                let k = self.rng.pick(&self.knots).clone();
+                if self.rng.chance(1, 2) { k } else { format!("not {k}") }
+            }
+            3 if self.cfg.lists && !self.list_vars.is_empty() && !self.lists.is_empty() => {
+                let lv = self.rng.pick(&self.list_vars).clone();
+                let l = self.rng.pick(&self.lists).clone();
+                let it = self.rng.pick(&l.1).clone();
+                let _ = &l.0;
+                if self.rng.chance(1, 2) { format!("{lv} ? {it}") } else { format!("{lv} !? {it}") }
+            }
+            4 if self.cfg.read_counts && !self.knots.is_empty() => {
+                format!("TURNS_SINCE(-> {}) >= {}", self.rng.pick(&self.knots), self.rng.range(0, 2))
+            }
+            5 => format!("CHOICE_COUNT() == {}", self.rng.range(0, 2)),
+            _ => {
+                let a = self.int_expr(1);
+                let b = self.int_atom();
+                let op = *self.rng.pick(&[">", "<", "==", "!=", ">=", "<="]);
+                format!("{a} {op} {b}")
+            }
+        }
+    }
+
+    fn tag(&mut self) -> String {
+        if self.cfg.tags && self.rng.chance(1, 3) {
+            let m = self.m();
+            if self.cfg.hostile_text && self.rng.chance(1, 2) {
+                format!(" # t{m} {}", self.rng.pick(HOSTILE))
+            } else {
+                format!(" # t{m}")
+            }
+        } else {
+            String::new()
+        }
+    }
+
+    fn inline_bits(&mut self) -> String {
+        let mut s = String::new();
+        let n = self.rng.below(3);
+        for _ in 0..n {
+            match self.rng.below(9) {
+                0 if !self.ints.is_empty() || !self.temps.is_empty() => {
+                    let e = self.int_expr(1);
+                    s.push_str(&format!(" v={{{e}}}"));
+                }
+                1 if self.cfg.strings && !self.strs.is_empty() => {
+                    let v = self.rng.pick(&self.strs).clone();
+                    s.push_str(&format!(" s={{{v}}}"));
+                }
+                2 if self.cfg.conditionals => {
+                    let c = self.cond();
+                    let m = self.m();
+                    s.push_str(&format!(" {{{c}:y{m}|n{m}}}"));
+                }
+                3 if self.cfg.sequences => {
+                    let m = self.m();
+                    let kind = if self.cfg.shuffles && self.rng.chance(1, 3) {
+                        "~"
+                    } else {
+                        *self.rng.pick(&["", "&", "!"])
+                    };
+                    s.push_str(&format!(" {{{kind}a{m}|b{m}|c{m}}}"));
+                }
+                4 if self.cfg.functions && !self.funcs.is_empty() => {
+                    let f = self.rng.pick(&self.funcs).clone();
+                    let args: Vec<String> = (0..f.1).map(|_| self.int_atom()).collect();
+                    s.push_str(&format!(" f={{{}({})}}", f.0, args.join(", ")));
+                }
+                5 if self.cfg.lists && !self.list_vars.is_empty() => {
+                    let lv = self.rng.pick(&self.list_vars).clone();
+                    let f = *self.rng.pick(&["", "LIST_MAX", "LIST_MIN", "LIST_COUNT", "LIST_ALL", "LIST_INVERT", "LIST_VALUE", "LIST_RANDOM", "LIST_MAX", "LIST_MIN"]);
+                    let f = if f == "LIST_RANDOM" && !self.cfg.random { "LIST_COUNT" } else { f };
+                    if f.is_empty() {
+                        s.push_str(&format!(" l={{{lv}}}"));
+                    } else {
+                        s.push_str(&format!(" l={{{f}({lv})}}"));
+                    }
+                }
+                6 if self.cfg.externals && !self.externals.is_empty() => {
+                    let e = self.rng.pick(&self.externals).clone();
+                    let args: Vec<String> = (0..e.1).map(|_| self.int_atom()).collect();
+                    s.push_str(&format!(" x={{{}({})}}", e.0, args.join(", ")));
+                }
+                7 if self.cfg.hostile_text => {
+                    s.push(' ');
+                    let h = *self.rng.pick(HOSTILE); s.push_str(h);
+                }
+                _ => {}
+            }
+        }
+        s
+    }
+
+    fn text_line(&mut self, indent: usize) {
+        let m = self.m();
+        let bits = self.inline_bits();
+        let tag = self.tag();
+        let glue_l = if self.cfg.glue && self.rng.chance(1, 8) { "<> " } else { "" };
+        let glue_r = if self.cfg.glue && self.rng.chance(1, 8) { " <>" } else { "" };
+        let s = format!("{glue_l}{m} text{bits}{glue_r}{tag}");
+        self.line(indent, &s);
+    }
+
+    fn assign(&mut self, indent: usize) {
+        match self.rng.below(8) {
+            0 | 1 | 2 if !self.ints.is_empty() => {
+                let v = self.rng.pick(&self.ints).clone();
+                let e = self.int_expr(2);
+                let s = match self.rng.below(4) {
+                    0 => format!("~ {v} += {}", self.int_atom()),
+                    1 => format!("~ {v} -= {}", self.int_atom()),
+                    2 => format!("~ {v}++"),
+                    _ => format!("~ {v} = {e}"),
+                };
+                self.line(indent, &s);
+            }
+            3 if !self.bools.is_empty() => {
+                let v = self.rng.pick(&self.bools).clone();
+                let c = self.cond();
+                self.line(indent, &format!("~ {v} = {c}"));
+            }
+            4 if self.cfg.strings && !self.strs.is_empty() => {
+                let v = self.rng.pick(&self.strs).clone();
+                let m = self.m();
+                if self.rng.chance(1, 3) && !self.ints.is_empty() {
+                    let i = self.rng.pick(&self.ints).clone();
+                    self.line(indent, &format!("~ {v} = \"s{m}-{{{i}}}\""));
+                } else {
+                    self.line(indent, &format!("~ {v} = \"s{m}\""));
+                }
+            }
+            5 if self.cfg.lists && !self.list_vars.is_empty() && !self.lists.is_empty() => {
+                let lv = self.rng.pick(&self.list_vars).clone();
+                let l = self.rng.pick(&self.lists).clone();
+                let it = self.rng.pick(&l.1).clone();
+                let l2 = self.rng.pick(&self.lists).clone();
+                let it2 = self.rng.pick(&l2.1).clone();
+                let lv2 = self.rng.pick(&self.list_vars).clone();
+                let s = match self.rng.below(10) {
+                    0 => format!("~ {lv} += {it}"),
+                    1 => format!("~ {lv} -= {it}"),
+                    2 => format!("~ {lv} = ({it}, {it2})"),
+                    3 => format!("~ {lv} = LIST_ALL({lv})"),
+                    4 => format!("~ {lv} = ()"),
+                    5 => format!("~ {lv} += ({it}, {it2})"),
+                    6 => format!("~ {lv} = {lv} + {lv2}"),
+                    7 => format!("~ {lv} = LIST_INVERT({lv})"),
+                    8 => format!("~ {lv} = {lv} ^ {lv2}"),
+                    _ => format!("~ {lv}++"),
+                };
+                self.line(indent, &s);
+            }
+            6 if self.cfg.temps => {
+                let t = format!("t{}", self.marker + 1);
+                self.marker += 1;
+                let e = self.int_expr(1);
+                self.line(indent, &format!("~ temp {t} = {e}"));
+                self.temps.push(t);
+            }
+            _ => {
+                if !self.ints.is_empty() {
+                    let v = self.rng.pick(&self.ints).clone();
+                    self.line(indent, &format!("~ {v} = {v} + 1"));
+                }
+            }
+        }
+    }
+
+    fn message_site(&mut self, indent: usize) {
+        // a site that raises a warning or an error carrying a unique identifier
+        self.msg_id += 1;
+        let id = self.msg_id;
+        let m = self.m();
+        match self.rng.below(5) {
+            0 => {
+                // error: divert through a variable holding an int
+                self.line(indent, &format!("{m} before-err e{id}"));
+                let dv = format!("dv_{id}");
+                self.divert_vars.push(dv.clone());
+                self.line(indent, &format!("-> {dv}"));
+            }
+            1 => {
+                // error: arithmetic on void
+                self.line(indent, &format!("{m} voidsite e{id} {{fv_{id}() + 1}}"));
+            }
+            2 => {
+                // warning-free control: plain text
+                self.line(indent, &format!("{m} calm e{id}"));
+            }
+            3 => {
+                self.line(indent, &format!("{m} divzero e{id} {{1 / zero_{id}}}"));
+            }
+            _ => {
+                self.line(indent, &format!("{m} modzero e{id} {{7 % zero_{id}}}"));
+            }
+        }
+    }
+
+    fn statement(&mut self, indent: usize, depth: usize, in_func: bool) {
+        let r = self.rng.below(20);
+        match r {
+            0..=5 => self.text_line(indent),
+            6 | 7 => self.assign(indent),
+            8 if self.cfg.assign_heavy => {
+                self.assign(indent);
+                self.text_line(indent);
+                self.assign(indent);
+            }
+            9 if self.cfg.conditionals && depth > 0 => {
+                let c = self.cond();
+                self.line(indent, &format!("{{ {c}:"));
+                let n = 1 + self.rng.below(2);
+                for _ in 0..n {
+                    self.statement(indent + 1, depth - 1, in_func);
+                }
+                if self.rng.chance(1, 2) {
+                    self.line(indent, "- else:");
+                    self.statement(indent + 1, depth - 1, in_func);
+                }
+                self.line(indent, "}");
+            }
+            10 if self.cfg.tunnels && !self.tunnels.is_empty() && !in_func => {
+                let t = self.rng.pick(&self.tunnels).clone();
+                self.line(indent, &format!("-> {t} ->"));
+            }
+            11 if self.cfg.threads && !self.threads.is_empty() && !in_func && depth > 0 => {
+                let t = self.rng.pick(&self.threads).clone();
+                self.line(indent, &format!("<- {t}"));
+            }
+            12 if self.cfg.functions && !self.funcs.is_empty() => {
+                let f = self.rng.pick(&self.funcs).clone();
+                let args: Vec<String> = (0..f.1).map(|_| self.int_atom()).collect();
+                self.line(indent, &format!("~ {}({})", f.0, args.join(", ")));
+            }
+            13 if self.cfg.externals && !self.externals.is_empty() => {
+                let e = self.rng.pick(&self.externals).clone();
+                let args: Vec<String> = (0..e.1).map(|_| self.int_atom()).collect();
+                if self.rng.chance(1, 2) && !self.ints.is_empty() {
+                    let v = self.rng.pick(&self.ints).clone();
+                    self.line(indent, &format!("~ {v} = {}({})", e.0, args.join(", ")));
+                } else {
+                    self.line(indent, &format!("~ {}({})", e.0, args.join(", ")));
+                }
+            }
+            14 if self.cfg.sequences && depth > 0 && !in_func => {
+                let kind = if self.cfg.shuffles && self.rng.chance(1, 3) {
+                    "shuffle"
+                } else {
+                    *self.rng.pick(&["stopping", "cycle", "once"])
+                };
+                self.line(indent, &format!("{{ {kind}:"));
+                let n = 2 + self.rng.below(2);
+                for _ in 0..n {
+                    let m = self.m();
+                    self.line(indent + 1, &format!("- {m} seq"));
+                }
+                self.line(indent, "}");
+            }
+            15 if self.cfg.message_sites && !in_func => self.message_site(indent),
+            16 if self.cfg.glue => {
+                let m = self.m();
+                self.line(indent, &format!("{m} glued <>"));
+                let m2 = self.m();
+                self.line(indent, &format!("{m2} tail"));
+            }
+            _ => self.text_line(indent),
+        }
+    }
+
+    fn choice_block(&mut self, next: &str) {
+        // a weave: 2-4 choices then a gather
+        let n = 2 + self.rng.below(3);
+        let mut has_fallback = false;
+        for i in 0..n {
+            let m = self.m();
+            let sticky = self.rng.chance(1, 3);
+            let star = if sticky { "+" } else { "*" };
+            let label = if self.rng.chance(1, 5) { format!(" (c{m})") } else { String::new() };
+            let cond = if self.cfg.conditionals && self.rng.chance(1, 4) { format!(" {{{}}}", self.cond()) } else { String::new() };
+            let tag = self.tag();
+            if i == n - 1 && !has_fallback && self.rng.chance(1, 4) {
+                // fallback choice
+                has_fallback = true;
+                self.line(0, &format!("{star} -> {next}"));
+                continue;
+            }
+            let body = match self.rng.below(4) {
+                0 => format!("[{m} only]"),
+                1 => format!("{m} start [mid] end"),
+                2 => format!("{m} plain"),
+                _ => format!("{m} pre[in]"),
+            };
+            let bits = if self.rng.chance(1, 4) { self.inline_bits() } else { String::new() };
+            let divert = match self.rng.below(6) {
+                0 => format!(" -> {next}"),
+                1 if !self.tunnels.is_empty() && self.cfg.tunnels => String::new(),
+                _ => String::new(),
+            };
+            self.line(0, &format!("{star}{label}{cond} {body}{bits}{tag}{divert}"));
+            if divert.is_empty() {
+                let k = self.rng.below(3);
+                for _ in 0..k {
+                    self.statement(1, 1, false);
+                }
+                if self.rng.chance(1, 6) {
+                    // one nested level
+                    let m1 = self.m();
+                    let m2 = self.m();
+                    self.line(1, &format!("* * {m1} nested a"));
+                    self.line(2, &format!("{m1} after nested a"));
+                    self.line(1, &format!("* * {m2} nested b"));
+                    self.line(1, &format!("- - {m2} inner gather"));
+                }
+            }
+        }
+        let m = self.m();
+        let label = if self.rng.chance(1, 4) { format!("(g{m}) ") } else { String::new() };
+        self.line(0, &format!("- {label}{m} gather"));
+    }
+
+    fn knot_body(&mut self, next: &str, allow_choices: bool) {
+        let n = 1 + self.rng.below(self.cfg.stmts.max(1));
+        for _ in 0..n {
+            if allow_choices && self.cfg.choices && self.rng.chance(1, 4) {
+                self.choice_block(next);
+            } else {
+                self.statement(0, 2, false);
+            }
+        }
+    }
+}
+
+/// Generate one program. `None` if the compiler rejected it (counted by callers).
+pub fn generate(rng: &mut Rng, cfg: &GenCfg) -> Option<Program> {
+    let src = render(rng, cfg);
+    match compile_source(&src, None) {
+        Ok(json) => Program::from_json("generated", &format!("gen-{:08x}", crate::rng::fnv(&src) as u32), Some(src), json),
+        Err(_) => None,
+    }
+}
+
+pub fn generate_verbose(rng: &mut Rng, cfg: &GenCfg) -> (String, Result<Program, String>) {
+    let src = render(rng, cfg);
+    let r = match compile_source(&src, None) {
+        Ok(json) => Program::from_json("generated", &format!("gen-{:08x}", crate::rng::fnv(&src) as u32), Some(src.clone()), json)
+            .ok_or_else(|| "compiled JSON does not parse".to_string()),
+        Err(e) => Err(e),
+    };
+    (src, r)
+}
+
+pub fn render(rng: &mut Rng, cfg: &GenCfg) -> String {
+    let mut g = G {
+        rng,
+        cfg: cfg.clone(),
+        out: String::new(),
+        marker: 0,
+        knot: 0,
+        ints: vec![],
+        bools: vec![],
+        strs: vec![],
+        list_vars: vec![],
+        lists: vec![],
+        consts: vec![],
+        funcs: vec![],
+        tunnels: vec![],
+        threads: vec![],
+        externals: vec![],
+        knots: vec![],
+        temps: vec![],
+        msg_id: 0,
+        divert_vars: vec![],
+    };
+    // ---- declarations
+    if g.cfg.globals {
+        let n = 1 + g.rng.below(4);
+        for i in 0..n {
+            let v = format!("gi{i}");
+            let init = if g.cfg.fault_prone && g.rng.chance(1, 3) { 0 } else { g.rng.range(0, 5) };
+            g.line(0, &format!("VAR {v} = {init}"));
+            g.ints.push(v);
+        }
+        let n = g.rng.below(3);
+        for i in 0..n {
+            let v = format!("gb{i}");
+            let b = g.rng.chance(1, 2);
+            g.line(0, &format!("VAR {v} = {b}"));
+            g.bools.push(v);
+        }
+        if g.cfg.strings {
+            let n = 1 + g.rng.below(2);
+            for i in 0..n {
+                let v = format!("gs{i}");
+                g.line(0, &format!("VAR {v} = \"str{i}\""));
+                g.strs.push(v);
+            }
+        }
+    }
+    if g.cfg.loops {
+        g.line(0, "VAR loopc = 0");
+    }
+    if g.cfg.consts {
+        let n = 1 + g.rng.below(2);
+        for i in 0..n {
+            let c = format!("CK{i}");
+            let v = g.rng.range(1, 9);
+            g.line(0, &format!("CONST {c} = {v}"));
+            g.consts.push(c);
+        }
+    }
+    if g.cfg.lists {
+        let nl = 1 + g.rng.below(3);
+        for i in 0..nl {
+            let name = format!("L{i}");
+            let ni = 2 + g.rng.below(3);
+            let items: Vec<String> = (0..ni).map(|k| format!("i{i}{}", (b'a' + k as u8) as char)).collect();
+            // with `list_ties` items share values inside a list and across lists; otherwise every
+            // item of the program has its own value (list i uses i*10+1 ..)
+            let ties = g.cfg.list_ties;
+            let decl: Vec<String> = items
+                .iter()
+                .enumerate()
+                .map(|(k, it)| {
+                    let on = g.rng.chance(1, 3);
+                    let val = if ties {
+                        if g.rng.chance(1, 4) { format!(" = {}", 1 + k / 2) } else { String::new() }
+                    } else if k == 0 {
+                        format!(" = {}", i * 10 + 1)
+                    } else {
+                        String::new()
+                    };
+                    if on { format!("({it}{val})") } else { format!("{it}{val}") }
+                })
+                .collect();
+            g.line(0, &format!("LIST {name} = {}", decl.join(", ")));
+            g.lists.push((name.clone(), items));
+            g.list_vars.push(name);
+        }
+        let nv = 1 + g.rng.below(2);
+        for i in 0..nv {
+            let v = format!("lv{i}");
+            // list literals in a VAR initialiser are not resolved by the repository's
+            // compiler (origin-less items); only `()` and a single bare item are used here
+            let a = g.rng.pick(&g.lists).clone();
+            let ia = g.rng.pick(&a.1).clone();
+            if g.rng.chance(1, 3) {
+                g.line(0, &format!("VAR {v} = ()"));
+            } else {
+                g.line(0, &format!("VAR {v} = {ia}"));
+            }
+            g.list_vars.push(v);
+        }
+    }
+    if g.cfg.externals {
+        let n = 1 + g.rng.below(2);
+        for i in 0..n {
+            let name = format!("ext{i}");
+            let argc = g.rng.below(3);
+            let params: Vec<String> = (0..argc).map(|k| format!("p{k}")).collect();
+            g.line(0, &format!("EXTERNAL {name}({})", params.join(", ")));
+            g.externals.push((name, argc));
+        }
+    }
+    // names of later sections (so earlier ones can refer to them)
+    let nk = g.cfg.knots.max(1);
+    let knot_names: Vec<String> = (0..nk).map(|i| format!("k{i}")).collect();
+    let nf = if g.cfg.functions { 1 + g.rng.below(3) } else { 0 };
+    for i in 0..nf {
+        let argc = g.rng.below(3);
+        let prints = g.rng.chance(1, 2);
+        g.funcs.push((format!("fn{i}"), argc, prints));
+    }
+    let nt = if g.cfg.tunnels { 1 + g.rng.below(2) } else { 0 };
+    for i in 0..nt {
+        g.tunnels.push(format!("tun{i}"));
+    }
+    let nth = if g.cfg.threads { 1 + g.rng.below(2) } else { 0 };
+    for i in 0..nth {
+        g.threads.push(format!("thr{i}"));
+    }
+    g.knots = knot_names.clone();
+
+    // ---- top-level preamble
+    if g.cfg.tags && g.rng.chance(1, 3) {
+        g.line(0, "# global_tag_one");
+    }
+    if g.rng.chance(1, 2) {
+        g.knot = 99;
+        let n = 1 + g.rng.below(2);
+        for _ in 0..n {
+            g.text_line(0);
+        }
+    }
+    g.line(0, &format!("-> {}", knot_names[0]));
+    g.line(0, "");
+
+    // ---- knots
+    for (i, k) in knot_names.iter().enumerate() {
+        g.knot = i;
+        g.temps.clear();
+        g.line(0, &format!("=== {k} ==="));
+        let next = if i + 1 < nk { knot_names[i + 1].clone() } else { "END".to_string() };
+        if g.cfg.tags && g.rng.chance(1, 4) {
+            let m = g.m();
+            g.line(0, &format!("# knot_tag_{m}"));
+        }
+        g.knot_body(&next, true);
+        if g.cfg.stitches && g.rng.chance(1, 3) {
+            let st = format!("st{i}");
+            g.line(0, &format!("-> {k}.{st}"));
+            g.line(0, &format!("= {st}"));
+            g.temps.clear();
+            g.knot_body(&next, true);
+        }
+        if g.cfg.loops && i > 0 && g.rng.chance(1, 4) {
+            let back = knot_names[g.rng.below(i + 1)].clone();
+            g.line(0, "{ loopc < 2:");
+            g.line(1, "~ loopc = loopc + 1");
+            g.line(1, &format!("-> {back}"));
+            g.line(0, "}");
+        }
+        // leave the knot
+        if g.rng.chance(1, 8) && next != "END" {
+            g.line(0, "-> DONE");
+        } else {
+            g.line(0, &format!("-> {next}"));
+        }
+        g.line(0, "");
+    }
+
+    // ---- tunnels
+    let tunnels = g.tunnels.clone();
+    for (i, t) in tunnels.iter().enumerate() {
+        g.knot = 50 + i;
+        g.temps.clear();
+        g.line(0, &format!("=== {t} ==="));
+        let saved_tunnels = std::mem::take(&mut g.tunnels);
+        // a tunnel may call later tunnels only (no recursion)
+        g.tunnels = saved_tunnels[i + 1..].to_vec();
+        let n = 1 + g.rng.below(3);
+        for _ in 0..n {
+            g.statement(0, 1, false);
+        }
+        if g.cfg.choices && g.rng.chance(1, 4) {
+            let m = g.m();
+            g.line(0, &format!("* {m} tunnel choice a"));
+            g.line(0, &format!("* {m} tunnel choice b"));
+            g.line(0, &format!("- {m} tunnel gather"));
+        }
+        g.tunnels = saved_tunnels;
+        if g.cfg.fault_prone && g.rng.chance(1, 8) {
+            g.line(0, "-> DONE");
+        } else {
+            g.line(0, "->->");
+        }
+        g.line(0, "");
+    }
+
+    // ---- threads
+    let threads = g.threads.clone();
+    for (i, t) in threads.iter().enumerate() {
+        g.knot = 70 + i;
+        g.temps.clear();
+        g.line(0, &format!("=== {t} ==="));
+        if g.rng.chance(1, 2) {
+            g.text_line(0);
+        }
+        let m = g.m();
+        let target = g.rng.pick(&knot_names).clone();
+        let target = if g.rng.chance(1, 2) { "END".to_string() } else { target };
+        g.line(0, &format!("+ {m} thread choice"));
+        g.line(1, &format!("{m} thread body"));
+        g.line(1, &format!("-> {target}"));
+        if g.rng.chance(1, 2) {
+            let m2 = g.m();
+            g.line(0, &format!("* {m2} thread once"));
+            g.line(1, &format!("-> {target}"));
+        }
+        g.line(0, "-> DONE");
+        g.line(0, "");
+    }
+
+    // ---- functions
+    let funcs = g.funcs.clone();
+    for (i, f) in funcs.iter().enumerate() {
+        g.knot = 80 + i;
+        g.temps.clear();
+        let params: Vec<String> = (0..f.1).map(|k| format!("a{k}")).collect();
+        g.line(0, &format!("=== function {}({}) ===", f.0, params.join(", ")));
+        g.temps = params.clone();
+        // functions may call earlier functions only (no recursion)
+        let saved = std::mem::take(&mut g.funcs);
+        g.funcs = saved[..i].to_vec();
+        let saved_ext = std::mem::take(&mut g.externals);
+        if f.2 {
+            let n = 1 + g.rng.below(2);
+            for _ in 0..n {
+                let m = g.m();
+                let bits = if g.rng.chance(1, 2) && !params.is_empty() { format!(" a={{{}}}", params[0]) } else { String::new() };
+                g.line(0, &format!("{m} ftext{bits}"));
+            }
+        }
+        if g.rng.chance(1, 3) && g.cfg.temps {
+            g.line(0, "~ temp ft = 1");
+            g.temps.push("ft".into());
+        }
+        if g.cfg.fault_prone && g.rng.chance(1, 6) {
+            // no return value: callers get void
+        } else {
+            let e = g.int_expr(1);
+            g.line(0, &format!("~ return {e}"));
+        }
+        g.funcs = saved;
+        g.externals = saved_ext;
+        g.line(0, "");
+    }
+
+    // ---- external fallbacks
+    let externals = g.externals.clone();
+    for e in externals.iter() {
+        let params: Vec<String> = (0..e.1).map(|k| format!("p{k}")).collect();
+        g.line(0, &format!("=== function {}({}) ===", e.0, params.join(", ")));
+        let sum = if params.is_empty() { "7".to_string() } else { format!("{} + 7", params.join(" + ")) };
+        g.line(0, &format!("~ return {sum}"));
+        g.line(0, "");
+    }
+
+    // ---- message-site support declarations
+    let mut extra = String::new();
+    for id in 1..=g.msg_id {
+        extra.push_str(&format!("VAR zero_{id} = 0\n"));
+        extra.push_str(&format!("VAR dv_{id} = {id}\n"));
+    }
+    let mut tail = String::new();
+    for id in 1..=g.msg_id {
+        tail.push_str(&format!("=== function fv_{id}() ===\n~ temp unused_{id} = 0\n\n"));
+    }
+    format!("{extra}{}{tail}", g.out)
 }
